@@ -1,4 +1,6 @@
-(* Search/SearchersProofsBool.v — the boolean searcher (search_boolean.go) meets the iterator
+(* Search/SearchersProofsBoolAdv.v — the boolean searcher, Next and Advance (the development
+   of SearchersProofsBool.v extended: Advance, the optional should child, the state after a match).
+   The boolean searcher (search_boolean.go) meets the iterator
    contract when its children do.  Denotation: every candidate of the primary child (must, else
    should) that the must-not child does not match and — when there are must clauses and the
    should child requires matches (Min() <> 0) — that the should child matches too.
@@ -21,6 +23,15 @@ Section Bool.
   Hypothesis Hadv : adv_exact C cadv CInv CFin.
   Variable CNew : C -> (Z -> bool) -> Prop.
   Hypothesis Hnew : new_exact cnext CInv CFin CNew.
+  (* a child that reported the end reports it again for every target at or above that point *)
+  Hypothesis Hfin : fin_adv C cadv CFin.
+  (* the should child of a boolean with must clauses and should.Min() = 0 only adds to the score:
+     Advance is called on it with targets below its cursor too (advanceIfTrailing), so all that is
+     known of it is CAny: it answers every Advance *)
+  Variable CAny : C -> Prop.
+  Hypothesis Hany_adv : forall c n, CAny c -> 0 <= n -> exists r c', cadv c n = Ok (r, c') /\ CAny c'.
+  Hypothesis Hany_inv : forall c S lo, CInv c S lo -> CAny c.
+  Hypothesis Hany_fin : forall c S lo, CFin c S lo -> CAny c.
   (* Min() is a static property of a searcher *)
   Hypothesis Hmin_next : forall c r c', cnext c = Ok (r, c') -> cmin c' = cmin c.
   Hypothesis Hmin_adv : forall c n r c', cadv c n = Ok (r, c') -> cmin c' = cmin c.
@@ -65,6 +76,17 @@ Section Bool.
     | _, _ => False
     end.
 
+  Definition opt_any (child : option C) : Prop :=
+    match child, Ss with
+    | Some c, Some _ => CAny c
+    | None, None => True
+    | _, _ => False
+    end.
+
+  (* the should child next to must clauses: tracked exactly when it is required *)
+  Definition should_ok (child : option C) (Ls : Z) (cursor : option dmatch) : Prop :=
+    if should_required then opt_sec_ok child Ss Ls cursor else opt_any child.
+
   (* Lp, Ln, Ls: the levels the candidates, the must-not cursor and the should cursor are valid from *)
   Definition bool_ok3 (st : bool_st C) (Lp Ln Ls : Z) : Prop :=
     b_init st = true /\ b_done st = false /\
@@ -72,7 +94,7 @@ Section Bool.
     match b_must st, Sm with
     | Some mc, Some sm =>
         prim_ok mc sm Lp (b_cm st) /\ b_cur st = b_cm st /\
-        opt_sec_ok (b_should st) Ss Ls (b_cs st) /\
+        should_ok (b_should st) Ls (b_cs st) /\
         match b_should st with Some sc => cmin sc = smin | None => True end
     | None, None =>
         match b_should st, Ss with
@@ -135,6 +157,11 @@ Section Bool.
   Lemma opt_sec_ok_mono : forall child S L L' cursor, opt_sec_ok child S L cursor -> L <= L' -> opt_sec_ok child S L' cursor.
   Proof.
     intros [c|] [s|] L L' cursor H Hle; simpl in *; auto. eapply sec_ok_mono; eauto.
+  Qed.
+
+  Lemma should_ok_mono : forall child L L' cursor, should_ok child L cursor -> L <= L' -> should_ok child L' cursor.
+  Proof.
+    unfold should_ok. intros child L L' cursor H Hle. destruct should_required; [eapply opt_sec_ok_mono; eauto|exact H].
   Qed.
 
   (* consulting an optional secondary child: the shape shared by must-not and should *)
@@ -240,7 +267,8 @@ Section Bool.
   (* advanceNextMust from a state whose candidate is cur *)
   Lemma anm_spec : forall st Lp Ln Ls cur,
     bool_ok3 st Lp Ln Ls -> b_cur st = Some cur -> Ln <= dm_num cur + 1 -> Ls <= dm_num cur + 1 ->
-    exists st', bool_advance_next_must C cnext st = Ok st' /\ bool_ok st' (dm_num cur + 1).
+    exists st', bool_advance_next_must C cnext st = Ok st' /\ bool_ok st' (dm_num cur + 1) /\
+                (Sm <> None -> b_cs st' = b_cs st).
   Proof.
     intros st Lp Ln Ls cur [Hi [Hd [Hmn Hrest]]] Hcur HLn HLs.
     unfold bool_advance_next_must.
@@ -248,17 +276,17 @@ Section Bool.
     - destruct Hrest as [[HB Hp] [Hcc [Hsh Hmin]]]. rewrite Hcur in Hcc. rewrite <- Hcc in Hp.
       destruct Hp as [_ HI].
       destruct (Hnext mc sm (dm_num cur + 1) HI) as [r [mc' [E Hpost]]]. rewrite E. simpl.
-      eexists. split; [reflexivity|].
+      eexists. split; [reflexivity|]. split; [|intros _; reflexivity].
       unfold bool_ok, bool_ok3. simpl. rewrite ESm. split; [exact Hi|]. split; [exact Hd|].
       split; [eapply opt_sec_ok_mono; eauto|].
-      split; [|split; [reflexivity|split; [eapply opt_sec_ok_mono; eauto|exact Hmin]]].
+      split; [|split; [reflexivity|split; [eapply should_ok_mono; eauto|exact Hmin]]].
       split; [exact HB|]. destruct r as [m'|]; simpl in Hpost; [exact Hpost|].
       destruct Hpost as [Hn HF]. split; [exact Hn|]. eexists. split; [|exact HF]. lia.
     - destruct (b_should st) as [sc|] eqn:Es; destruct Ss as [ss|] eqn:ESs; try contradiction.
       destruct Hrest as [[HB Hp] [Hcc Hcm]]. rewrite Hcur in Hcc. rewrite <- Hcc in Hp.
       destruct Hp as [_ HI].
       destruct (Hnext sc ss (dm_num cur + 1) HI) as [r [sc' [E Hpost]]]. rewrite E. simpl.
-      eexists. split; [reflexivity|].
+      eexists. split; [reflexivity|]. split; [|intros Hne; congruence].
       unfold bool_ok, bool_ok3. simpl. rewrite ESm, ESs. split; [exact Hi|]. split; [exact Hd|].
       split; [eapply opt_sec_ok_mono; eauto|].
       split; [|split; [reflexivity|exact Hcm]].
@@ -310,7 +338,7 @@ Section Bool.
           { apply (set_cmn_ok st L L L (Some nc') r (dm_num cur + 1) Hok). rewrite ESn. exact Hok'. }
           destruct r as [mn'|].
           -- destruct (dm_num mn' =? dm_num cur) eqn:E2.
-             ++ destruct (anm_spec _ _ _ _ cur Hst1) as [st2 [E3 Hok2]]; [exact Hcur|lia|lia|].
+             ++ destruct (anm_spec _ _ _ _ cur Hst1) as [st2 [E3 [Hok2 _]]]; [exact Hcur|lia|lia|].
                 rewrite E3. cbn [rbind]. exists true, st2. split; [reflexivity|]. split; [symmetry; exact Hs|exact Hok2].
              ++ exists false, (set_cmn C st (Some nc') (Some mn')). split; [reflexivity|]. split; [symmetry; exact Hs|].
                 split; [exact Hst1|exact Hcur].
@@ -319,7 +347,7 @@ Section Bool.
         * apply Z.ltb_ge in E1.
           destruct (sec_keep nc sn L (Some mn) (dm_num cur) Hmn HLc E1) as [Hok' Hs]. simpl in Hs.
           destruct (dm_num mn =? dm_num cur) eqn:E2.
-          -- destruct (anm_spec st L L L cur Hok Hcur) as [st2 [E3 Hok2]]; [lia|lia|].
+          -- destruct (anm_spec st L L L cur Hok Hcur) as [st2 [E3 [Hok2 _]]]; [lia|lia|].
              rewrite E3. cbn [rbind]. exists true, st2. split; [reflexivity|]. split; [symmetry; exact Hs|exact Hok2].
           -- exists false, st. split; [reflexivity|]. split; [symmetry; exact Hs|]. split; [apply Hkeep; lia|exact Hcur].
       + exists false, st. split; [reflexivity|]. split.
@@ -330,7 +358,7 @@ Section Bool.
   Qed.
 
   Lemma set_cs_ok : forall st Lp Ln Ls mc child' r Ls',
-    bool_ok3 st Lp Ln Ls -> b_must st = Some mc -> opt_sec_ok child' Ss Ls' r ->
+    bool_ok3 st Lp Ln Ls -> b_must st = Some mc -> should_ok child' Ls' r ->
     match child' with Some sc => cmin sc = smin | None => True end ->
     bool_ok3 (set_cs C st child' r) Lp Ln Ls'.
   Proof.
@@ -340,21 +368,30 @@ Section Bool.
     destruct Hrest as [Hp [Hcc [_ _]]]. split; [exact Hp|]. split; [exact Hcc|]. split; [exact Hok|exact Hmin].
   Qed.
 
+  (* with must clauses and a required should child the should cursor is not ahead of the watermark
+     when a match is returned: advanceIfTrailing may advance it unconditionally *)
+  Definition trail (st : bool_st C) (L : Z) : Prop :=
+    match Sm with
+    | Some _ => should_required = true -> match b_cs st with Some s => dm_num s < L | None => True end
+    | None => True
+    end.
+
   Definition stage_result (k : bool_st C -> res (option dmatch * bool_st C)) (st1 : bool_st C) (cur : dmatch) : Prop :=
     (exists rv st3, should_stage k st1 cur = Ok (Some rv, st3) /\ dm_num rv = dm_num cur /\
-                    bool_S (dm_num cur) = true /\ bool_ok st3 (dm_num cur + 1)) \/
+                    bool_S (dm_num cur) = true /\ bool_ok st3 (dm_num cur + 1) /\ trail st3 (dm_num cur + 1)) \/
     (exists st3, should_stage k st1 cur = k st3 /\ bool_S (dm_num cur) = false /\ bool_ok st3 (dm_num cur + 1)).
 
   (* matched: build the match from the candidate, step the candidate child *)
   Lemma matched_spec : forall st2 L Ls cons first rest cur,
     bool_ok3 st2 L (dm_num cur + 1) Ls -> Ls <= dm_num cur + 1 -> b_cur st2 = Some cur ->
     cons = first :: rest -> dm_num first = dm_num cur ->
-    exists rv st3, matched' st2 cons = Ok (Some rv, st3) /\ dm_num rv = dm_num cur /\ bool_ok st3 (dm_num cur + 1).
+    exists rv st3, matched' st2 cons = Ok (Some rv, st3) /\ dm_num rv = dm_num cur /\ bool_ok st3 (dm_num cur + 1) /\
+                   (Sm <> None -> b_cs st3 = b_cs st2).
   Proof.
     intros st2 L Ls cons first rest cur Hok HLs Hcur -> Hnum.
     unfold matched'. cbn [build_match].
-    destruct (anm_spec st2 L _ Ls cur Hok Hcur) as [st3 [E Hok3]]; [lia|exact HLs|].
-    rewrite E. cbn [rbind]. eexists _, st3. split; [reflexivity|]. split; [exact Hnum|exact Hok3].
+    destruct (anm_spec st2 L _ Ls cur Hok Hcur) as [st3 [E [Hok3 Hcs3]]]; [lia|exact HLs|].
+    rewrite E. cbn [rbind]. eexists _, st3. split; [reflexivity|]. split; [exact Hnum|]. split; [exact Hok3|exact Hcs3].
   Qed.
 
   Lemma should_stage_spec : forall k st1 L cur,
@@ -370,73 +407,124 @@ Section Bool.
       destruct Hrest as [Hp [Hcc [Hsh Hmin]]].
       assert (Hcm : b_cm st1 = Some cur) by congruence.
       assert (Hsm : sm (dm_num cur) = true) by (unfold prim_S in Hprim; rewrite ESm in Hprim; exact Hprim).
+      assert (Hcur0 : 0 <= dm_num cur) by (pose proof (proj1 Hp _ Hsm); lia).
       assert (HbS : forall b, (if should_required then opt_S Ss true (dm_num cur) else true) = b -> bool_S (dm_num cur) = b).
       { intros b Hb. unfold bool_S. rewrite ESm, Hsm, HSn. simpl. exact Hb. }
-      (* the two ways of deciding once the should cursor is known *)
-      assert (Hdecide : forall st2 Ls (hit : bool) rest,
+      (* the two ways of deciding once the should cursor is settled *)
+      assert (Hdecide : forall st2 Ls (hit : bool),
                 bool_ok3 st2 L (dm_num cur + 1) Ls -> Ls <= dm_num cur + 1 -> b_cur st2 = Some cur -> b_cm st2 = Some cur ->
-                hit = opt_S Ss false (dm_num cur) ->
-                (hit = true -> bool_constituents C st2 = cur :: rest) ->
+                hit = match b_cs st2 with Some s' => dm_num s' =? dm_num cur | None => false end ->
+                (should_required = true -> hit = opt_S Ss false (dm_num cur)) ->
                 should_min_zero C cmin st2 = negb should_required ->
                 (exists rv st3, (if hit then matched' st2 (bool_constituents C st2)
                                  else if should_min_zero C cmin st2 then matched' st2 (only_must' st2)
                                  else st3 <- bool_advance_next_must C cnext st2 ;; k st3) = Ok (Some rv, st3) /\
-                                dm_num rv = dm_num cur /\ bool_S (dm_num cur) = true /\ bool_ok st3 (dm_num cur + 1)) \/
+                                dm_num rv = dm_num cur /\ bool_S (dm_num cur) = true /\ bool_ok st3 (dm_num cur + 1) /\
+                                trail st3 (dm_num cur + 1)) \/
                 (exists st3, (if hit then matched' st2 (bool_constituents C st2)
                               else if should_min_zero C cmin st2 then matched' st2 (only_must' st2)
                               else st3 <- bool_advance_next_must C cnext st2 ;; k st3) = k st3 /\
                              bool_S (dm_num cur) = false /\ bool_ok st3 (dm_num cur + 1))).
-      { intros st2 Ls hit rest Hok2 HLs Hcur2 Hcm2 Hhit Hcons Hmz.
+      { intros st2 Ls hit Hok2 HLs Hcur2 Hcm2 Hhit Hreq Hmz.
+        assert (Hcons : bool_constituents C st2 = cur :: match b_cs st2 with Some s => [s] | None => [] end).
+        { unfold bool_constituents. rewrite Hcm2. reflexivity. }
         destruct hit.
-        - left. destruct (matched_spec st2 L Ls _ cur rest cur Hok2 HLs Hcur2 (Hcons eq_refl) eq_refl) as [rv [st3 [E [Hn Hok3]]]].
-          exists rv, st3. split; [exact E|]. split; [exact Hn|]. split; [|exact Hok3].
-          apply HbS. destruct should_required; [|reflexivity].
-          destruct Ss as [ss|]; simpl in *; [symmetry; exact Hhit|reflexivity].
+        - left. destruct (matched_spec st2 L Ls _ cur _ cur Hok2 HLs Hcur2 Hcons eq_refl) as [rv [st3 [E [Hn [Hok3 Hcs3]]]]].
+          exists rv, st3. split; [exact E|]. split; [exact Hn|]. split; [|split; [exact Hok3|]].
+          + apply HbS. destruct should_required eqn:Ereq; [|reflexivity].
+            specialize (Hreq eq_refl). destruct Ss as [ss|]; simpl in *; [symmetry; exact Hreq|reflexivity].
+          + unfold trail. rewrite ESm. intros _. rewrite Hcs3 by (rewrite ESm; discriminate).
+            destruct (b_cs st2) as [s'|]; [|exact I]. symmetry in Hhit. apply Z.eqb_eq in Hhit. lia.
         - rewrite Hmz. destruct should_required eqn:Ereq; simpl.
-          + right. destruct (anm_spec st2 L _ Ls cur Hok2 Hcur2) as [st3 [E Hok3]]; [lia|exact HLs|].
+          + right. destruct (anm_spec st2 L _ Ls cur Hok2 Hcur2) as [st3 [E [Hok3 _]]]; [lia|exact HLs|].
             rewrite E. cbn [rbind]. exists st3. split; [reflexivity|]. split; [|exact Hok3].
-            apply HbS. unfold should_required in Ereq. destruct Ss as [ss|]; [|discriminate]. simpl in *. symmetry. exact Hhit.
+            apply HbS. specialize (Hreq eq_refl). unfold should_required in Ereq. destruct Ss as [ss|]; [|discriminate]. simpl in *. symmetry. exact Hreq.
           + left. unfold only_must'. rewrite Hcm2.
-            destruct (matched_spec st2 L Ls [cur] cur [] cur Hok2 HLs Hcur2 eq_refl eq_refl) as [rv [st3 [E [Hn Hok3]]]].
-            exists rv, st3. split; [exact E|]. split; [exact Hn|]. split; [|exact Hok3]. apply HbS. reflexivity. }
-      destruct (b_should st1) as [sc|] eqn:Esc; destruct Ss as [ss|] eqn:ESs; simpl in Hsh; try contradiction.
-      + assert (Hmz1 : should_min_zero C cmin st1 = negb should_required).
-        { unfold should_min_zero, should_required. rewrite Esc, ESs, Hmin. destruct (smin =? 0); reflexivity. }
+            destruct (matched_spec st2 L Ls [cur] cur [] cur Hok2 HLs Hcur2 eq_refl eq_refl) as [rv [st3 [E [Hn [Hok3 _]]]]].
+            exists rv, st3. split; [exact E|]. split; [exact Hn|]. split; [apply HbS; reflexivity|]. split; [exact Hok3|].
+            unfold trail. rewrite ESm. intros Hf. rewrite Ereq in Hf. discriminate. }
+      assert (Hmz_of : forall st2, b_should st2 = b_should st1 \/ (exists sc sc', b_should st1 = Some sc /\ b_should st2 = Some sc' /\ cmin sc' = cmin sc) ->
+                should_min_zero C cmin st2 = negb should_required).
+      { intros st2 Hs2. unfold should_min_zero, should_required.
+        destruct Hs2 as [->|[sc [sc' [E1 [-> E3]]]]].
+        - destruct (b_should st1) as [sc|] eqn:Esc.
+          + rewrite Hmin. unfold should_ok, should_required, opt_sec_ok, opt_any in Hsh.
+            destruct Ss as [ss|]; [destruct (smin =? 0); reflexivity|]. destruct (negb (smin =? 0)); contradiction.
+          + unfold should_ok, should_required, opt_sec_ok, opt_any in Hsh.
+            destruct Ss as [ss|]; [|reflexivity]. destruct (negb (smin =? 0)); contradiction.
+        - rewrite E1 in Hmin, Hsh. rewrite E3, Hmin. unfold should_ok, should_required, opt_sec_ok, opt_any in Hsh.
+          destruct Ss as [ss|]; [destruct (smin =? 0); reflexivity|]. destruct (negb (smin =? 0)); contradiction. }
+      destruct should_required eqn:Ereq.
+      + (* the should child is required: its cursor is tracked *)
+        unfold should_ok in Hsh. rewrite Ereq in Hsh.
+        assert (Hsetcs : forall child' r Ls', opt_sec_ok child' Ss Ls' r ->
+                   match child' with Some sc => cmin sc = smin | None => True end ->
+                   bool_ok3 (set_cs C st1 child' r) L (dm_num cur + 1) Ls').
+        { intros child' r Ls' H1 H2. apply (set_cs_ok st1 L _ L mc child' r Ls' Hok Em); [|exact H2].
+          unfold should_ok. rewrite Ereq. exact H1. }
+        destruct (b_should st1) as [sc|] eqn:Esc; destruct Ss as [ss|] eqn:ESs; simpl in Hsh; try contradiction.
+        * destruct (b_cs st1) as [s|] eqn:Ecs.
+          -- destruct (dm_num s <? dm_num cur) eqn:E1.
+             ++ apply Z.ltb_lt in E1.
+                destruct (sec_advance sc ss L s (dm_num cur) Hsh E1) as [r [sc' [Ea [Hok' [Hs Hge]]]]].
+                unfold opt_adv. rewrite Ea. cbn [rbind fst snd]. cbv zeta.
+                apply (Hdecide (set_cs C st1 (Some sc') r) (dm_num cur + 1)); try assumption; try lia.
+                ** apply Hsetcs; [exact Hok'|]. rewrite <- Hmin. eapply Hmin_adv; eauto.
+                ** reflexivity.
+                ** intros _. symmetry. exact Hs.
+                ** apply Hmz_of. right. exists sc, sc'. split; [reflexivity|]. split; [reflexivity|]. eapply Hmin_adv; eauto.
+             ++ apply Z.ltb_ge in E1.
+                destruct (sec_keep sc ss L (Some s) (dm_num cur) Hsh HLc E1) as [_ Hs]. simpl in Hs.
+                apply (Hdecide st1 L (dm_num s =? dm_num cur)); try assumption; try lia.
+                ** rewrite Ecs. reflexivity.
+                ** intros _. symmetry. exact Hs.
+                ** apply Hmz_of; left; first [reflexivity | assumption].
+          -- destruct Hsh as [Hn _].
+             apply (Hdecide st1 L false); try assumption; try lia.
+             ++ rewrite Ecs. reflexivity.
+             ++ intros _. simpl. symmetry. apply Hn. exact HLc.
+             ++ apply Hmz_of; left; first [reflexivity | assumption].
+        * unfold should_required in Ereq. rewrite ESs in Ereq. discriminate.
+      + (* the should child is optional: whatever it answers, the candidate is returned *)
+        unfold should_ok in Hsh. rewrite Ereq in Hsh.
+        assert (Hsetcs : forall child' r, opt_any child' ->
+                   match child' with Some sc => cmin sc = smin | None => True end ->
+                   bool_ok3 (set_cs C st1 child' r) L (dm_num cur + 1) L).
+        { intros child' r H1 H2. apply (set_cs_ok st1 L _ L mc child' r L Hok Em); [|exact H2].
+          unfold should_ok. rewrite Ereq. exact H1. }
         destruct (b_cs st1) as [s|] eqn:Ecs.
         * destruct (dm_num s <? dm_num cur) eqn:E1.
-          -- apply Z.ltb_lt in E1.
-             destruct (sec_advance sc ss L s (dm_num cur) Hsh E1) as [r [sc' [Ea [Hok' [Hs Hge]]]]].
-             unfold opt_adv. rewrite Ea. cbn [rbind fst snd]. cbv zeta.
-             assert (Hst2 : bool_ok3 (set_cs C st1 (Some sc') r) L (dm_num cur + 1) (dm_num cur + 1)).
-             { apply (set_cs_ok st1 L _ L mc (Some sc') r (dm_num cur + 1) Hok Em); [rewrite ESs; exact Hok'|].
-               rewrite <- Hmin. eapply Hmin_adv; eauto. }
-             apply (Hdecide (set_cs C st1 (Some sc') r) (dm_num cur + 1) _ (match r with Some s' => [s'] | None => [] end));
-               try assumption; try lia.
-             ++ symmetry. exact Hs.
-             ++ intros _. unfold bool_constituents, set_cs. simpl. rewrite Hcm. destruct r; reflexivity.
-             ++ unfold should_min_zero, should_required, set_cs. simpl.
-                rewrite ESs, (Hmin_adv _ _ _ _ Ea), Hmin. destruct (smin =? 0); reflexivity.
-          -- apply Z.ltb_ge in E1.
-             destruct (sec_keep sc ss L (Some s) (dm_num cur) Hsh HLc E1) as [_ Hs]. simpl in Hs.
-             apply (Hdecide st1 L (dm_num s =? dm_num cur) [s]); try assumption; try lia.
-             ++ symmetry. exact Hs.
-             ++ intros _. unfold bool_constituents. rewrite Hcm, Ecs. reflexivity.
-        * destruct Hsh as [Hn _].
-          apply (Hdecide st1 L false []); try assumption; try lia;
-            try (simpl; symmetry; apply Hn; exact HLc); try (intros Hf; discriminate).
-      + subst. rewrite Hsh.
-        apply (Hdecide st1 L false []); try assumption; try lia;
-          try reflexivity; try (intros Hf; discriminate).
-        unfold should_min_zero, should_required. rewrite Esc, ESs. reflexivity.
+          -- (* Advance on the should child *)
+             assert (Hadv' : exists r child', opt_adv C cadv (b_should st1) (Some s) (dm_num cur) = Ok (r, child') /\
+                               opt_any child' /\ match child' with Some sc => cmin sc = smin | None => True end /\
+                               (b_should st1 = child' \/ exists sc sc', b_should st1 = Some sc /\ child' = Some sc' /\ cmin sc' = cmin sc)).
+             { unfold opt_any in Hsh |- *. destruct (b_should st1) as [sc|] eqn:Esc.
+               - destruct Ss as [ss|]; [|contradiction].
+                 destruct (Hany_adv sc (dm_num cur) Hsh ltac:(lia)) as [r [sc' [Ea Hany']]].
+                 exists r, (Some sc'). unfold opt_adv. rewrite Ea. cbn [rbind fst snd]. split; [reflexivity|].
+                 split; [exact Hany'|]. split; [rewrite <- Hmin; eapply Hmin_adv; eauto|].
+                 right. exists sc, sc'. split; [reflexivity|]. split; [reflexivity|]. eapply Hmin_adv; eauto.
+               - exists (Some s), None. split; [reflexivity|]. split; [exact Hsh|]. split; [exact I|left; reflexivity]. }
+             destruct Hadv' as [r [child' [Ea [Hany' [Hmin' Hsame]]]]]. rewrite Ea. cbn [rbind fst snd]. cbv zeta.
+             apply (Hdecide (set_cs C st1 child' r) L); try assumption; try lia.
+             ++ apply Hsetcs; assumption.
+             ++ reflexivity.
+             ++ apply Hmz_of. destruct Hsame as [<-|Hs2]; [left; reflexivity|right; exact Hs2].
+          -- apply (Hdecide st1 L (dm_num s =? dm_num cur)); try assumption; try lia.
+             ++ rewrite Ecs. reflexivity.
+             ++ apply Hmz_of; left; first [reflexivity | assumption].
+        * apply (Hdecide st1 L false); try assumption; try lia.
+          -- rewrite Ecs. reflexivity.
+          -- apply Hmz_of; left; first [reflexivity | assumption].
     - (* only should clauses: the candidate is currShould *)
       destruct (b_should st1) as [sc|] eqn:Esc; destruct Ss as [ss|] eqn:ESs; try contradiction.
       destruct Hrest as [Hp [Hcc Hcm]].
       assert (Hcs : b_cs st1 = Some cur) by congruence.
       rewrite Hcs. rewrite Z.ltb_irrefl, Z.eqb_refl.
-      left. destruct (matched_spec st1 L L (bool_constituents C st1) cur [] cur Hok ltac:(lia) Hcur) as [rv [st3 [E [Hn Hok3]]]].
+      left. destruct (matched_spec st1 L L (bool_constituents C st1) cur [] cur Hok ltac:(lia) Hcur) as [rv [st3 [E [Hn [Hok3 _]]]]].
       { unfold bool_constituents. rewrite Hcm, Hcs. reflexivity. }
       { reflexivity. }
-      exists rv, st3. split; [exact E|]. split; [exact Hn|]. split; [|exact Hok3].
+      exists rv, st3. split; [exact E|]. split; [exact Hn|]. split; [|split; [exact Hok3|unfold trail; rewrite ESm; exact I]].
       unfold bool_S. rewrite ESm, ESs, HSn. unfold prim_S in Hprim. rewrite ESm, ESs in Hprim. simpl in Hprim.
       rewrite Hprim. reflexivity.
   Qed.
@@ -461,7 +549,7 @@ Section Bool.
 
   Definition bool_loop_post (lo : Z) (r : option dmatch) (st' : bool_st C) : Prop :=
     match r with
-    | Some rv => least_from bool_S lo (dm_num rv) /\ bool_ok st' (dm_num rv + 1)
+    | Some rv => least_from bool_S lo (dm_num rv) /\ bool_ok st' (dm_num rv + 1) /\ trail st' (dm_num rv + 1)
     | None => none_from bool_S lo /\ b_init st' = true
     end.
 
@@ -561,8 +649,13 @@ Section Bool.
       destruct m' as [mc|]; destruct Sm as [sm|] eqn:ESm; try contradiction.
       + destruct Hpm as [HB Hpm]. split; [apply exact_post_prim; assumption|]. split; [reflexivity|].
         split.
-        { unfold opt_sec_ok. destruct s' as [sc|]; destruct Ss as [ss|]; try contradiction; [|exact Hps].
-          apply exact_post_sec. apply Hps. }
+        { unfold should_ok. destruct should_required.
+          - unfold opt_sec_ok. destruct s' as [sc|]; destruct Ss as [ss|]; try contradiction; [|exact Hps].
+            apply exact_post_sec. apply Hps.
+          - unfold opt_any. destruct s' as [sc|]; destruct Ss as [ss|]; try contradiction; [|exact I].
+            destruct Hps as [_ Hps]. destruct rs as [m|]; simpl in Hps.
+            + eapply Hany_inv. apply Hps.
+            + eapply Hany_fin. apply Hps. }
         destruct s' as [sc|]; [|exact I].
         destruct (b_should st) as [sc0|] eqn:Esc; [|destruct Hns as [Hns _]; specialize (Hns eq_refl); discriminate].
         rewrite (Hmins sc0 sc eq_refl eq_refl). exact Hmin.
@@ -571,9 +664,15 @@ Section Bool.
         * destruct Hne as [Hne|Hne]; congruence.
   Qed.
 
+  (* the state after a match was returned: Advance may follow *)
+  Definition bool_ret (st : bool_st C) (L : Z) : Prop := bool_ok st L /\ trail st L.
+
+  Lemma bool_ret_inv st L : bool_ret st L -> bool_inv st L.
+  Proof. intros [H _]. left. exact H. Qed.
+
   Definition bool_exact_post (lo : Z) (r : option dmatch) (st' : bool_st C) : Prop :=
     match r with
-    | Some rv => least_from bool_S lo (dm_num rv) /\ bool_inv st' (dm_num rv + 1)
+    | Some rv => least_from bool_S lo (dm_num rv) /\ bool_ret st' (dm_num rv + 1)
     | None => none_from bool_S lo /\ b_done st' = true
     end.
 
@@ -588,7 +687,150 @@ Section Bool.
     assert (Hfu : (Z.to_nat (N - lo) + 1 < lf)%nat) by lia.
     destruct (bool_loop_spec lf st1 lo lo Hok (Z.le_refl _) Hlo Hb0 Hfu) as [r [st' [E Hpost]]].
     rewrite E. cbn [rbind fst snd]. destruct r as [rv|]; simpl in Hpost.
-    - exists (Some rv), st'. split; [reflexivity|]. simpl. destruct Hpost as [Hl Hok']. split; [exact Hl|left; exact Hok'].
+    - exists (Some rv), st'. split; [reflexivity|]. simpl. destruct Hpost as [Hl Hok']. split; [exact Hl|exact Hok'].
     - exists None, (set_done C st'). split; [reflexivity|]. simpl. destruct Hpost as [Hn _]. split; [exact Hn|reflexivity].
+  Qed.
+  (* ---------- Advance ---------- *)
+
+  Lemma prim_adv : forall c S L cursor n, prim_ok c S L cursor -> L <= n ->
+    match cursor with Some m => dm_num m < n | None => True end ->
+    exists r c', cadv c n = Ok (r, c') /\ prim_ok c' S n r.
+  Proof.
+    intros c S L [m|] n [HB H] HL Hlt.
+    - destruct H as [_ HI]. destruct (Hadv c S (dm_num m + 1) n HI ltac:(lia)) as [r [c' [E Hpost]]].
+      exists r, c'. split; [exact E|]. split; [exact HB|]. destruct r as [m'|]; simpl in Hpost; [exact Hpost|].
+      destruct Hpost as [Hn HF]. split; [exact Hn|]. exists n. split; [lia|exact HF].
+    - destruct H as [Hn [lo' [Hlo' HF]]].
+      destruct (Hfin c S lo' n HF ltac:(lia)) as [c' [lo2 [E [Hlo2 HF']]]].
+      exists None, c'. split; [exact E|]. split; [exact HB|]. split; [eapply none_from_mono; eauto|]. exists lo2. split; assumption.
+  Qed.
+
+  Lemma sec_adv_to : forall c S L cursor n, sec_ok c S L cursor -> L <= n ->
+    match cursor with Some m => dm_num m < n | None => True end ->
+    exists r c', cadv c n = Ok (r, c') /\ sec_ok c' S n r.
+  Proof.
+    intros c S L [m|] n H HL Hlt; simpl in H.
+    - destruct H as [_ [HI _]]. destruct (Hadv c S (dm_num m + 1) n HI ltac:(lia)) as [r [c' [E Hpost]]].
+      exists r, c'. split; [exact E|]. destruct r as [m'|]; simpl in Hpost |- *.
+      + destruct Hpost as [[A [B0 D]] HI']. split; [exact A|]. split; [exact HI'|exact D].
+      + destruct Hpost as [Hn HF]. split; [exact Hn|]. exists n. split; [lia|exact HF].
+    - destruct H as [Hn [lo' [Hlo' HF]]].
+      destruct (Hfin c S lo' n HF ltac:(lia)) as [c' [lo2 [E [Hlo2 HF']]]].
+      exists None, c'. split; [exact E|]. simpl. split; [eapply none_from_mono; eauto|]. exists lo2. split; assumption.
+  Qed.
+
+  Lemma mn_adv_spec : forall mnc cmn L n, opt_sec_ok mnc Sn L cmn -> L <= n ->
+    exists r child',
+      match mnc with
+      | None => Ok (cmn, None)
+      | Some _ =>
+          if match cmn with None => true | Some c => dm_num c <? n end
+          then opt_adv C cadv mnc cmn n else Ok (cmn, mnc)
+      end = Ok (r, child') /\ opt_sec_ok child' Sn n r.
+  Proof.
+    intros [nc|] cmn L n Hok HL; destruct Sn as [sn|]; cbn [opt_sec_ok] in Hok; try contradiction.
+    - destruct cmn as [c|].
+      + destruct (dm_num c <? n) eqn:E.
+        * apply Z.ltb_lt in E. destruct (sec_adv_to nc sn L (Some c) n Hok HL E) as [r [c' [Ea Hok']]].
+          exists r, (Some c'). unfold opt_adv. rewrite Ea. cbn [rbind fst snd]. split; [reflexivity|exact Hok'].
+        * exists (Some c), (Some nc). split; [reflexivity|]. cbn [opt_sec_ok]. eapply sec_ok_mono; eauto.
+      + destruct (sec_adv_to nc sn L None n Hok HL I) as [r [c' [Ea Hok']]].
+        exists r, (Some c'). unfold opt_adv. rewrite Ea. cbn [rbind fst snd]. split; [reflexivity|exact Hok'].
+    - exists cmn, None. split; [reflexivity|]. cbn [opt_sec_ok]. exact Hok.
+  Qed.
+
+  Lemma advance_if_trailing_spec : forall st L n,
+    bool_ok st L -> trail st L -> L <= n -> 0 <= n ->
+    match b_cur st with Some c => dm_num c < n | None => True end ->
+    exists st2, bool_advance_if_trailing C cadv st n = Ok st2 /\ bool_ok st2 n.
+  Proof.
+    intros st L n [Hi [Hd [Hmn Hrest]]] Htr HL Hn0 Hcur.
+    unfold bool_advance_if_trailing. cbv zeta.
+    destruct (mn_adv_spec (b_mustnot st) (b_cmn st) L n Hmn HL) as [rn [nc' [En Hmn']]].
+    destruct (b_must st) as [mc|] eqn:Em; destruct Sm as [sm|] eqn:ESm; try contradiction.
+    - destruct Hrest as [Hp [Hcc [Hsh Hmin]]]. rewrite Hcc in Hcur.
+      destruct (prim_adv mc sm L (b_cm st) n Hp HL Hcur) as [rm [mc' [Ea Hp']]].
+      unfold opt_adv at 1. rewrite Ea. cbn [rbind fst snd].
+      (* the should child *)
+      assert (Hs : exists rs sc', opt_adv C cadv (b_should st) (b_cs st) n = Ok (rs, sc') /\ should_ok sc' n rs /\
+                     match sc' with Some sc => cmin sc = smin | None => True end).
+      { unfold should_ok in Hsh |- *. unfold trail in Htr. rewrite ESm in Htr.
+        destruct should_required eqn:Ereq.
+        - specialize (Htr eq_refl).
+          destruct (b_should st) as [sc|] eqn:Esc; destruct Ss as [ss|] eqn:ESs; simpl in Hsh; try contradiction.
+          + destruct (sec_adv_to sc ss L (b_cs st) n Hsh HL) as [rs [sc' [Eb Hsh']]].
+            { destruct (b_cs st); [lia|exact I]. }
+            exists rs, (Some sc'). unfold opt_adv. rewrite Eb. cbn [rbind fst snd]. split; [reflexivity|].
+            split; [simpl; exact Hsh'|]. rewrite <- Hmin. eapply Hmin_adv; eauto.
+          + exists (b_cs st), None. split; [reflexivity|]. split; [simpl; exact Hsh|exact I].
+        - unfold opt_any in Hsh |- *.
+          destruct (b_should st) as [sc|] eqn:Esc; destruct Ss as [ss|] eqn:ESs; try contradiction.
+          + destruct (Hany_adv sc n Hsh Hn0) as [rs [sc' [Eb Hany']]].
+            exists rs, (Some sc'). unfold opt_adv. rewrite Eb. cbn [rbind fst snd]. split; [reflexivity|].
+            split; [exact Hany'|]. rewrite <- Hmin. eapply Hmin_adv; eauto.
+          + exists (b_cs st), None. split; [reflexivity|]. split; [exact I|exact I]. }
+      destruct Hs as [rs [sc' [Eb [Hsh' Hmin']]]]. rewrite Eb. cbn [rbind fst snd].
+      rewrite En. cbn [rbind fst snd].
+      eexists. split; [reflexivity|].
+      unfold bool_ok, bool_ok3. cbn [b_init b_done b_mustnot b_cmn b_must b_should b_cm b_cs b_cur pick_current].
+      rewrite ESm. split; [exact Hi|]. split; [exact Hd|]. split; [exact Hmn'|].
+      split; [exact Hp'|]. split; [reflexivity|]. split; [exact Hsh'|exact Hmin'].
+    - destruct (b_should st) as [sc|] eqn:Esc; destruct Ss as [ss|] eqn:ESs; try contradiction.
+      destruct Hrest as [Hp [Hcc Hcm]]. rewrite Hcc in Hcur.
+      destruct (prim_adv sc ss L (b_cs st) n Hp HL Hcur) as [rs [sc' [Ea Hp']]].
+      unfold opt_adv at 1. cbn [rbind fst snd]. unfold opt_adv at 1. rewrite Ea. cbn [rbind fst snd].
+      rewrite En. cbn [rbind fst snd].
+      eexists. split; [reflexivity|].
+      unfold bool_ok, bool_ok3. cbn [b_init b_done b_mustnot b_cmn b_must b_should b_cm b_cs b_cur pick_current].
+      rewrite ESm, ESs. split; [exact Hi|]. split; [exact Hd|]. split; [exact Hmn'|].
+      split; [exact Hp'|]. split; [reflexivity|exact Hcm].
+  Qed.
+
+  Lemma bool_advance_spec : forall lf st L n, bool_ret st L -> 0 <= L -> L <= n -> (Z.to_nat N + 2 <= lf)%nat ->
+    exists r st', bool_advance C cnext cadv cmin lf st n = Ok (r, st') /\ bool_exact_post n r st'.
+  Proof.
+    intros lf st L n [Hok Htr] HL0 HL Hlf. unfold bool_advance.
+    pose proof Hok as [Hi [Hd _]]. rewrite Hd. unfold bool_initialise. rewrite Hi. cbn [rbind].
+    assert (Htrail : match b_cur st with Some c => dm_num c < n | None => True end ->
+              exists r st', (st2 <- bool_advance_if_trailing C cadv st n ;; bool_next C cnext cadv cmin lf st2) = Ok (r, st') /\
+                            bool_exact_post n r st').
+    { intros Hc. destruct (advance_if_trailing_spec st L n Hok Htr HL ltac:(lia) Hc) as [st2 [E2 Hok2]].
+      rewrite E2. cbn [rbind]. apply bool_next_spec; [left; exact Hok2|lia|exact Hlf]. }
+    destruct (b_cur st) as [c|] eqn:Ecur.
+    - destruct (dm_num c <? n) eqn:E.
+      + apply Z.ltb_lt in E. apply Htrail. exact E.
+      + apply Z.ltb_ge in E. cbn [rbind].
+        destruct (bool_next_spec lf st L (or_introl Hok) HL0 Hlf) as [r [st' [En Hpost]]].
+        exists r, st'. split; [exact En|].
+        destruct (cur_facts st L L L c Hok Ecur) as [[_ [_ Hleast]] _].
+        assert (Hbelow : forall x, L <= x < n -> bool_S x = false).
+        { intros x Hx. apply bool_S_prim. apply Hleast. lia. }
+        destruct r as [rv|]; simpl in Hpost |- *.
+        * destruct Hpost as [[A [B0 D]] Hret]. split; [|exact Hret]. split; [exact A|]. split.
+          -- destruct (Z_lt_ge_dec (dm_num rv) n) as [Hlt|Hge]; [|lia]. rewrite Hbelow in A by lia. discriminate.
+          -- intros x Hx. apply D. lia.
+        * destruct Hpost as [Hnn Hdone]. split; [|exact Hdone]. intros x Hx. apply Hnn. lia.
+    - apply Htrail. exact I.
+  Qed.
+
+  (* once the end was reported (done) every call reports it again *)
+  Lemma bool_done_next : forall lf st, b_done st = true -> bool_next C cnext cadv cmin lf st = Ok (None, st).
+  Proof. intros lf st H. unfold bool_next. rewrite H. reflexivity. Qed.
+
+  Lemma bool_done_adv : forall lf st n, b_done st = true -> bool_advance C cnext cadv cmin lf st n = Ok (None, st).
+  Proof. intros lf st n H. unfold bool_advance. rewrite H. reflexivity. Qed.
+
+  Theorem bool_contract : forall lf, (Z.to_nat N + 2 <= lf)%nat ->
+      (forall st lo, bool_inv st lo -> 0 <= lo ->
+         exists r st', bool_next C cnext cadv cmin lf st = Ok (r, st') /\ bool_exact_post lo r st') /\
+      (forall st lo n, bool_ret st lo -> 0 <= lo -> lo <= n ->
+         exists r st', bool_advance C cnext cadv cmin lf st n = Ok (r, st') /\ bool_exact_post n r st') /\
+      (forall st n, b_done st = true ->
+         bool_next C cnext cadv cmin lf st = Ok (None, st) /\ bool_advance C cnext cadv cmin lf st n = Ok (None, st)).
+  Proof.
+    intros lf Hlf. split; [|split].
+    - intros st lo Hinv Hlo. apply bool_next_spec; assumption.
+    - intros st lo n Hret Hlo Hle. eapply bool_advance_spec; eauto.
+    - intros st n Hd. split; [apply bool_done_next|apply bool_done_adv]; exact Hd.
   Qed.
 End Bool.
